@@ -953,6 +953,36 @@ _E_SET_STALE = ("        if namespace:\n            self._logLevelsByNamespace[n
                 "        else:\n            self._logLevelsByNamespace[\"\"] = level\n            self._memo.clear()\n")
 _E_SET_FLUSH = "        self._memo.clear()\n" + _E_SET_OLD
 
+# round-3 shapes (shared by a silent variant and the mutant that breaks the same shape)
+_ACC_IMPORT = (FIL, "from functools import partial\n", "from functools import partial\nfrom itertools import accumulate\n")
+
+
+def _acc_lookup(order):
+    return ("        parents = list(accumulate(namespace.split(\".\")[:-1], lambda a, b: a + \".\" + b))\n"
+            f"        best = next((p for p in {order} if p in self._logLevelsByNamespace), \"\")\n"
+            "        return self._logLevelsByNamespace[best]\n")
+
+
+_GEN_OLD = "        for observer in self._observers:\n            if trace is not None:\n                trace(observer)\n\n            try:\n"
+_GEN_NEW = "        for observer in self._each(event):\n            try:\n"
+
+
+def _gen_method(source):
+    return (OBS, "    def _errorLoggerForObserver(self, observer: ILogObserver) -> Logger:\n",
+            "    def _each(self, event):\n        traced = \"log_trace\" in event\n"
+            f"        for candidate in {source}:\n            if traced:\n                event[\"log_trace\"].append((self, candidate))\n            yield candidate\n\n"
+            "    def _errorLoggerForObserver(self, observer: ILogObserver) -> Logger:\n")
+
+
+_ROUTE_OLD = ("        if self._shouldLogEvent(event):\n            if \"log_trace\" in event:\n                event[\"log_trace\"].append((self, self._observer))\n"
+              "            self._observer(event)\n        else:\n            self._negativeObserver(event)\n")
+
+
+def _route(a, b):
+    return (f"        if self._shouldLogEvent(event):\n            if \"log_trace\" in event:\n                event[\"log_trace\"].append((self, self._observer))\n"
+            f"            target = {a}\n        else:\n            target = {b}\n        target(event)\n")
+
+
 MUTANTS = [
     Mutant("observer-call-outside-try", OBS, "            try:\n                observer(event)\n            except Exception:\n                brokenObservers.append((observer, Failure()))\n",
            "            observer(event)\n", expect_rule="publisher/delivery"),
@@ -983,6 +1013,9 @@ MUTANTS = [
            expect_rule="filter/most-specific-prefix"),
     Mutant("prefix-memo-keeps-descendants-stale", FIL, _E_LOOKUP_OLD, _E_LOOKUP_NEW, expect_rule="filter/most-specific-prefix",
            more=[_E_INIT, _E_CLEAR, (FIL, _E_SET_OLD, _E_SET_STALE)]),
+    Mutant("accumulate-lookup-least-specific-first", FIL, _E_LOOKUP_OLD, _acc_lookup("parents"), more=[_ACC_IMPORT], expect_rule="filter/most-specific-prefix"),
+    Mutant("fan-out-generator-reversed", OBS, _GEN_OLD, _GEN_NEW, more=[_gen_method("reversed(self._observers)")], expect_rule="publisher/forward-iteration"),
+    Mutant("chosen-recipient-swapped", FIL, _ROUTE_OLD, _route("self._negativeObserver", "self._observer"), expect_rule="filter/forwards-iff-should-log"),
     Mutant("verdicts-swapped", FIL, "        if result == PredicateResult.yes:\n            return True\n        if result == PredicateResult.no:\n            return False\n",
            "        if result == PredicateResult.yes:\n            return False\n        if result == PredicateResult.no:\n            return True\n", expect_rule="filter/predicate-verdicts"),
     Mutant("replay-drains-history", BUF, "        for event in self._buffer:\n            otherObserver(event)", "        while self._buffer:\n            otherObserver(self._buffer.popleft())",
@@ -1018,5 +1051,8 @@ SILENT = [
            more=[(FIL, "class PredicateResult(Names):\n", "def _outward(name):\n    parts = name.split(\".\")\n    while len(parts) > 1:\n        parts.pop()\n        yield \".\".join(parts)\n\n\nclass PredicateResult(Names):\n")]),
     Silent("remove-observer-with-suppress", OBS, "        try:\n            self._observers.remove(observer)\n        except ValueError:\n            pass\n",
            "        with suppress(ValueError):\n            self._observers.remove(observer)\n", more=[(OBS, "from typing import Callable, Optional\n", "from contextlib import suppress\nfrom typing import Callable, Optional\n")]),
+    Silent("accumulate-lookup-most-specific-first", FIL, _E_LOOKUP_OLD, _acc_lookup("reversed(parents)"), more=[_ACC_IMPORT]),
+    Silent("fan-out-through-private-generator", OBS, _GEN_OLD, _GEN_NEW, more=[_gen_method("self._observers")]),
+    Silent("routing-through-chosen-recipient", FIL, _ROUTE_OLD, _route("self._observer", "self._negativeObserver")),
     Silent("history-positional-deque", BUF, "deque(maxlen=size)", "deque([], size)"),
 ]
